@@ -48,10 +48,20 @@ type Contract struct {
 	Assumes   []Clause // extra assumptions at entry (listed in evidence)
 	Uses      []string // ghost lemma functions whose contracts are available as quantified facts
 	Decreases []Clause // termination measure for recursive functions
+	Hints     []Hint   // `assert before <callee>@k e`: proved, then assumed, just before the k-th call of <callee>
+	Opaque    []string // spec functions never unfolded while verifying this function (their facts come from lemmas)
+	Calls     map[string]*Contract // `call <param>[.<method>] requires|ensures|modifies …`: contract of a function-typed parameter or of a method of an interface-typed parameter, as seen by this function
 	ParamInv  []Clause // `invariant e`: required at entry, ensured at exit, maintained by every loop
 	Schema    bool     // instantiated from a schema: clauses that do not resolve for this function are dropped
 	File      string
 	Line      int
+}
+
+type Hint struct {
+	Callee string
+	K      int
+	C      Clause
+	Uses   []string // lemmas made available (instantiated over the heap of that program point) for this assertion
 }
 
 type Lemma struct {
@@ -71,7 +81,7 @@ type SpecFunc struct {
 
 var clauseKeywords = map[string]bool{"func": true, "requires": true, "ensures": true, "modifies": true,
 	"loop": true, "pure": true, "trusted": true, "may_panic": true, "nullable": true, "dyn": true,
-	"callsite": true, "lemma": true, "assume": true, "pkgrule": true, "uses": true, "decreases": true, "invariant": true}
+	"callsite": true, "lemma": true, "assume": true, "pkgrule": true, "uses": true, "decreases": true, "invariant": true, "call": true, "opaque": true, "assert": true}
 
 // rewriteImplies turns `a ==> b` into `implies(a, b)` (lowest precedence, right associative).
 func rewriteImplies(s string) string {
@@ -317,6 +327,48 @@ func parseContractText(lines []string, lineNos []int, file, pkgPath string) (*Co
 			default:
 				return fmt.Errorf("%s:%d: unknown loop clause %q", file, p.line, f[1])
 			}
+		case "call":
+			f := strings.Fields(text)
+			if len(f) < 3 {
+				return fmt.Errorf("%s:%d: bad call clause", file, p.line)
+			}
+			if cur.Calls == nil {
+				cur.Calls = map[string]*Contract{}
+			}
+			sub := cur.Calls[f[0]]
+			if sub == nil {
+				sub = &Contract{Key: cur.Key + "$" + f[0], PkgPath: cur.PkgPath, Loops: map[int]*LoopSpec{}, Nullable: map[string]bool{}, Dyn: map[string][]string{}, File: file, Line: p.line}
+				cur.Calls[f[0]] = sub
+			}
+			rest := strings.TrimSpace(text[strings.Index(text, f[1])+len(f[1]):])
+			switch f[1] {
+			case "requires", "ensures":
+				c, err := parseClause(rest, file, p.line)
+				if err != nil {
+					return err
+				}
+				if f[1] == "requires" {
+					sub.Requires = append(sub.Requires, c)
+				} else {
+					sub.Ensures = append(sub.Ensures, c)
+				}
+			case "modifies":
+				sub.HasMod = true
+				for _, part := range splitTop(rest, ',') {
+					part = strings.TrimSpace(part)
+					if part == "" || part == "nothing" {
+						continue
+					}
+					part = strings.ReplaceAll(part, "[*]", "[:]")
+					c, err := parseClause(part, file, p.line)
+					if err != nil {
+						return err
+					}
+					sub.Modifies = append(sub.Modifies, c)
+				}
+			default:
+				return fmt.Errorf("%s:%d: call clause must be requires/ensures/modifies", file, p.line)
+			}
 		case "invariant":
 			c, err := parseClause(text, file, p.line)
 			if err != nil {
@@ -328,6 +380,52 @@ func parseContractText(lines []string, lineNos []int, file, pkgPath string) (*Co
 		case "uses":
 			for _, n := range strings.Fields(strings.ReplaceAll(text, ",", " ")) {
 				cur.Uses = append(cur.Uses, n)
+			}
+		case "assert":
+			// assert before <callee>@<k> <expr>
+			f := strings.Fields(text)
+			if len(f) < 3 || f[0] != "before" {
+				return fmt.Errorf("%s:%d: expected `assert before <callee>@<k> <expr>`", file, p.line)
+			}
+			ck := strings.SplitN(f[1], "@", 2)
+			k := 1
+			if len(ck) == 2 {
+				k, _ = strconv.Atoi(ck[1])
+			}
+			rest := strings.TrimSpace(text[strings.Index(text, f[1])+len(f[1]):])
+			var uses []string
+			for strings.HasPrefix(rest, "uses ") {
+				rest = strings.TrimSpace(rest[5:])
+				// lemma application: name(args...) with balanced parentheses, or a bare name
+				end := strings.IndexAny(rest, " (")
+				if end < 0 {
+					end = len(rest)
+				}
+				if end < len(rest) && rest[end] == '(' {
+					d := 0
+					for j := end; j < len(rest); j++ {
+						if rest[j] == '(' {
+							d++
+						} else if rest[j] == ')' {
+							d--
+							if d == 0 {
+								end = j + 1
+								break
+							}
+						}
+					}
+				}
+				uses = append(uses, rest[:end])
+				rest = strings.TrimSpace(rest[end:])
+			}
+			c, err := parseClause(rest, file, p.line)
+			if err != nil {
+				return err
+			}
+			cur.Hints = append(cur.Hints, Hint{Callee: ck[0], K: k, C: c, Uses: uses})
+		case "opaque":
+			for _, n := range strings.Fields(strings.ReplaceAll(text, ",", " ")) {
+				cur.Opaque = append(cur.Opaque, n)
 			}
 		case "decreases":
 			c, err := parseClause(text, file, p.line)
